@@ -37,7 +37,7 @@ UserEnabled(st, a) ==
   /\ st.ro.exists
   /\ CASE a = "user.release2" -> st.user.rev = 1 /\ st.ro.phase = "Healthy" /\ ~st.ro.deleting
        [] a = "user.release3" -> st.user.rev = 2 /\ inProg
-       [] a = "user.rollback" -> st.user.rev >= 2 /\ inProg /\ st.wl.n[st.user.rev] > 0
+       [] a = "user.rollback" -> st.user.rev >= 2 /\ inProg /\ st.wl.n[st.user.rev] > 0 /\ st.wl.n[1] > 0 /\ st.ro.reason \in {"InRolling", "Paused"}
        [] a = "user.scale"    -> inProg
        [] a = "user.approve"  -> inProg /\ st.ro.hasSub /\ st.ro.state = "StepPaused"
        [] a = "user.pause"    -> inProg /\ ~st.user.paused
@@ -78,6 +78,10 @@ GhostAfter(p, a, q0) ==
                  !.ghost.brEver = p.ghost.brEver \/ q0.br.exists,
                  !.ghost.jumpBack = p.ghost.jumpBack \/ (a \in {"user.jump:1", "user.jump:2", "user.jump:3", "user.jump:4"} /\ p.ro.hasSub /\ JumpTarget(a) < p.ro.step),
                  !.ghost.origOk = OrigOkOf(q0),
+                 \* only pods of the BatchRelease's update revision carry its labels: replacing them removes labels
+                 !.wl.labelled = IF q0.br.exists /\ q0.br.updRev \in 1..3 /\ q0.wl.exists
+                                 THEN Min(q0.wl.labelled, q0.wl.n[q0.br.updRev]) ELSE q0.wl.labelled,
+                 !.ghost.lateChange = p.ghost.lateChange \/ (a = "user.release3" /\ p.ro.reason \in {"Finalising", "Cancelling", "Completed"}),
                  !.quiet = ~\E e \in {"env.observe", "env.update", "env.ready", "env.scale"} : EnvEnabled(q0, e)]
 
 EditPlan(st) == [st EXCEPT !.plan = Plan2, !.ro.hashOk = (Plan2 = st.plan /\ st.ro.hashOk),
@@ -104,13 +108,14 @@ Spec == Init /\ [][Next]_vars
 \* ----- known findings reproduced by the model (see /verif/known_findings.json)
 KF_HoldLeft(st)  == ~st.ghost.brEver          \* KF-C05-hold-left-before-batchrelease / KF-C18-…
 KF_JumpBack(st)  == st.ghost.jumpBack         \* KF-C04-backward-jump-after-full-replacement
+KF_Late(st)      == st.ghost.lateChange       \* KF-C05-late-template-change-clobbered
 
 T(a) == [base |-> a, fault |-> "", panic |-> "", act |-> a]
 
 Inv_C04a == C04a(s)
 Inv_C04b == C04b(s) \/ KF_JumpBack(s)
 Inv_C04c == C04c(s)
-Inv_C05  == C05(s) \/ KF_HoldLeft(s)
+Inv_C05  == C05(s) \/ KF_HoldLeft(s) \/ KF_Late(s)
 Inv_C10b == C10b(s)
 Inv_C18b == C18b(s) \/ KF_HoldLeft(s)
 
